@@ -243,7 +243,11 @@ func cutRun(run Output, mapping []glyphIndex, startRune, endRune int, trimStart 
 	run.Glyphs = run.Glyphs[glyphStart : glyphEnd+1]
 	run.Runes.Count = runeEnd - runeStart + 1
 	run.Runes.Offset = run.Runes.Offset + runeStart
-	if trimStart {
+	if trimStart && len(run.Glyphs) > 0 && run.Glyphs[0].startLetterSpacing != 0 {
+		// The glyphs are shared with the input run, which may be cut again for
+		// another line candidate (or appended whole, with its original Advance):
+		// trim a copy.
+		run.Glyphs = append([]Glyph(nil), run.Glyphs...)
 		run.trimStartLetterSpacing()
 	}
 	run.RecomputeAdvance()
